@@ -169,6 +169,16 @@ func (vc *VC) Assume(guard, fact *Term) {
 }
 
 func (vc *VC) Oblige(o *Obligation) {
+	// split conjunctions into separate, smaller queries
+	if !o.WantSat && o.Goal.Op == "and" && len(o.Goal.Bound) == 0 && len(o.Goal.Args) > 1 && vc.quantDepth == 0 {
+		for i, g := range o.Goal.Args {
+			c := *o
+			c.Goal = g
+			c.Name = fmt.Sprintf("%s.%d", o.Name, i+1)
+			vc.Oblige(&c)
+		}
+		return
+	}
 	o.Prefix = len(vc.lines)
 	vc.noteTerm(o.Goal)
 	vc.noteTerm(o.Guard)
@@ -207,7 +217,16 @@ func typeKey(t types.Type) string {
 	return sanitize(types.TypeString(t, func(p *types.Package) string { return p.Name() }))
 }
 
+// SpecArr is a specification-only type: a total array (snapshot of a map's domain or values).
+type SpecArr struct{ K, V types.Type }
+
+func (s *SpecArr) Underlying() types.Type { return s }
+func (s *SpecArr) String() string         { return "arr[" + s.K.String() + "]" + s.V.String() }
+
 func (vc *VC) SortOf(t types.Type) Sort {
+	if sa, ok := t.(*SpecArr); ok {
+		return ArraySort(vc.SortOf(sa.K), vc.SortOf(sa.V))
+	}
 	t = types.Unalias(t)
 	if isCPUSet(t) {
 		vc.usesSets = true
